@@ -110,11 +110,11 @@ Lemma wf_cli_apply v argv : wfree (cli_apply v argv).
 Proof. destruct v; cbn [cli_apply]; try apply wf_ret. unfold call, force. cbn [bind]. apply wf_call. exact I. intros x. apply wf_force. intros y. apply wf_ret. Qed.
 Theorem effects_only_from_the_action n ip h w t argv h1 w1 v h2 w2 r d1 d2 :
   run (bs n) ip h w (force (VThunk t)) = Done h1 w1 (inl v) d1 ->
-  stage n ip (fun v => cli_apply v argv) h1 w1 v = Done h2 w2 r d2 -> w1 = w /\ w2 = w.
+  stage n ip (fun v => cli_apply v argv) h1 w1 v = Done h2 w2 r d2 -> io_of w1 = io_of w /\ io_of w2 = io_of w.
 Proof.
-  intros H1 H2. assert (w1 = w).
+  intros H1 H2. assert (E1 : io_of w1 = io_of w).
   { eapply (run_pure _ (bs_pure n)); [|exact H1]. constructor. intros; constructor. }
-  subst w1. split; auto. eapply (run_pure _ (bs_pure n)); [|exact H2]. apply wf_cli_apply.
+  split; auto. rewrite <- E1. eapply (run_pure _ (bs_pure n)); [|exact H2]. apply wf_cli_apply.
 Qed.
 
 (* ---------- the hypotheses are met by concrete runs ---------- *)
